@@ -98,6 +98,32 @@ def run(res: Results, idx: Index, tier: str) -> None:
             res.ok("R-C12b", f"{CA}:{rq[0].lineno}", key, f"_require_4d({src(shape_arg) if shape_arg is not None else ''}) dominates the Transpose", f.qualname)
         else:
             res.violation("R-C12b", f"{CA}:{tc.lineno}", key, "the boundary Transpose is emitted without a dominating rank-4 check: a non-4D tensor gets a 4-element perm", f.qualname)
+        # ---- R-C12b complex tensors: carried as packed real tensors of rank + 1, so the rank-4 check on the aval says nothing
+        # about the value the Transpose is applied to; a dominating check must reject complex dtypes (or the bridge must
+        # handle the packed axis, which this rule does not recognise: UNRESOLVED then)
+        key = f"{CA}::{f.qualname}::complex-rejected"
+        dom_calls = [c for c in walk_no_nested(f.node) if isinstance(c, ast.Call) and g.nodes_of(enclosing_stmt(c)) and enclosing_stmt(c) is not enclosing_stmt(tc) and g.dominates(enclosing_stmt(c), enclosing_stmt(tc))]
+        rejecting = None
+        for c in dom_calls:
+            h = idx.resolve_func(m, call_name(c) or "", cls=f.cls, scope=f)
+            if h is None:
+                continue
+            txt = ast.unparse(h.node)
+            if ("complexfloating" in txt or "iscomplex" in txt) and any(isinstance(x, ast.Raise) for x in ast.walk(h.node)):
+                hg = cfg_of(h.node)
+                tests = [n for n in walk_no_nested(h.node) if isinstance(n, ast.If) and ("complexfloating" in ast.unparse(n.test) or "iscomplex" in ast.unparse(n.test)) and any(isinstance(x, ast.Raise) for x in n.body)]
+                if tests:
+                    rejecting = (c, h)
+        inline = [n for n in walk_no_nested(f.node) if isinstance(n, ast.If) and ("complexfloating" in ast.unparse(n.test) or "iscomplex" in ast.unparse(n.test)) and any(isinstance(x, ast.Raise) for x in n.body) and g.dominates(n, enclosing_stmt(tc))]
+        if rejecting is not None:
+            res.ok("R-C12b", f"{CA}:{rejecting[0].lineno}", key, f"{rejecting[1].name}() raises for complex dtypes and dominates the Transpose", f.qualname)
+        elif inline:
+            res.ok("R-C12b", f"{CA}:{inline[0].lineno}", key, "an inline test raises for complex dtypes before the Transpose", f.qualname)
+        elif "complex" in ast.unparse(f.node):
+            res.unresolved("R-C12b", f"{CA}:{tc.lineno}", key, "the bridge mentions complex values but no rejecting check was recognised", f.qualname)
+        else:
+            res.violation("R-C12b", f"{CA}:{tc.lineno}", key, f"a complex 4-D {kind} selected by the layout flag reaches the 4-element Transpose although its value is a packed real tensor of rank 5: "
+                          "the model fails at run time (outputs) or loses the imaginary part (inputs) instead of being rejected", f.qualname)
     # input: origins recorded on the external NCHW value with the permuted shape
     du = defuse(bi.node)
     key = f"{CA}::_LayoutAdapter.bind_input::origin-on-external-value"
